@@ -174,9 +174,7 @@ theorem whole_execP (fdin : Option Handle) {w0 w : World} (fr : Fr1 (NewS w0) w0
         · refine wp_call_any fun r2 => ?_
           have fr3 := fr2.step .waitpid r2 rfl (by intro _ h; cases h) (fun _ _ _ => trivial)
           refine ⟨fr3, ?_⟩
-          split
-          · split <;> exact fr3
-          · exact fr3
+          split <;> exact fr3
         · exact fr2
       · intro res w3 fr3
         cases devnull with
